@@ -52,7 +52,10 @@ def handle (toks : List String) : String :=
       match cls with
       | "es" => s!"{series} ctor={Adapter.showArgs (Adapter.esCtor opts)} fitkw={Adapter.showArgs (Adapter.esFit opts)}"
       | "ets" => s!"{series} ctor={Adapter.showArgs (Adapter.etsCtor opts)} fitkw={Adapter.showArgs (Adapter.etsFit opts)}"
-      | "theta" => s!"{series} ctor={Adapter.showArgs (Adapter.thetaCtor opts)} fitkw={Adapter.showArgs (Adapter.esFit opts)}"
+      | "theta" =>
+        let ctor := Adapter.thetaCtor opts
+        if Adapter.smRejects ctor then s!"E:value ctor={Adapter.showArgs ctor}"
+        else s!"{series} ctor={Adapter.showArgs ctor} fitkw={Adapter.showArgs (Adapter.esFit opts)}"
       | _ => "bad-op"
     | _, _, _, _, _, _ => "bad-op"
   | ["naiveh", st0, sp0, wl0, o0, y0, st, sp, wl, origin, y, fh, rel] =>
